@@ -27,6 +27,7 @@ type Case struct {
 	Cont      []script.CMsg   `json:"cont,omitempty"`
 	Pipelined bool            `json:"pipelined,omitempty"`
 	Segs      []int           `json:"segs,omitempty"`
+	TLS       bool            `json:"tls,omitempty"` // authentication happens inside a TLS session
 }
 
 func table() script.Table {
@@ -102,8 +103,15 @@ func Run(c Case) core.Result {
 	if c.Term {
 		cfg.Term = &script.MW{}
 	}
+	if c.TLS {
+		cfg.TLS = "cert"
+		res.Labels = append(res.Labels, "inside-tls")
+	}
 	env := script.Start(cfg)
 	defer env.Stop()
+	if c.TLS {
+		return runTLS(c, cfg, env, res, v)
+	}
 	s := env.NewSess()
 	if c.Segs != nil {
 		s.C.SetSegments(c.Segs, true)
@@ -143,6 +151,53 @@ func Run(c Case) core.Result {
 	}
 	out := s.C.Output()
 	msgs, _, perr := pgwire.ParseStream(out)
+	return evaluate(c, cfg, env, res, v, msgs, perr)
+}
+
+// runTLS: the same exchange inside a TLS session (truncated / EOF kinds excluded by the generator).
+func runTLS(c Case, cfg script.Config, env *script.Env, res core.Result, v string) core.Result {
+	ts, err := env.NewTLSSess()
+	if err != nil {
+		res.Inconclusive = "TLS negotiation: " + err.Error()
+		return res
+	}
+	pairs := [][2]string{{"database", c.DB}}
+	if !c.NoUser {
+		pairs = append([][2]string{{"user", c.User}}, pairs...)
+	}
+	first := append(pgwire.Startup(pairs), c.pwBytes()...)
+	var cont []byte
+	for _, m := range c.Cont {
+		cont = append(cont, m.Bytes()...)
+	}
+	if c.Pipelined {
+		first = append(first, cont...)
+	}
+	st := ts.Send(first)
+	if st.State == memnet.Timeout {
+		res.Inconclusive = "no quiescence after the password message (TLS)"
+		return res
+	}
+	if v != "accept" && st.State != memnet.Closed {
+		res.Sig = "C01/not-closed/" + v
+		res.Violation = fmt.Sprintf("credentials not accepted (%s, password message %s, inside TLS) but the server keeps the connection open; server sent %v", v, c.PwKind, pgwire.Briefs(ts.Msgs))
+		return res
+	}
+	perr := st.Err
+	if !c.Pipelined && st.State != memnet.Closed {
+		st2 := ts.Send(cont)
+		if st2.State == memnet.Timeout {
+			res.Inconclusive = "no quiescence after the continuation (TLS)"
+			return res
+		}
+		if perr == nil {
+			perr = st2.Err
+		}
+	}
+	return evaluate(c, cfg, env, res, v, ts.Msgs, perr)
+}
+
+func evaluate(c Case, cfg script.Config, env *script.Env, res core.Result, v string, msgs []pgwire.BMsg, perr error) core.Result {
 	if ps := env.Panics(); len(ps) > 0 {
 		res.Sig, res.Violation = "C01/panic", "connection goroutine panicked: "+ps[0].Value
 		return res
